@@ -147,7 +147,19 @@ func VerifC09GC() {
 	s.AutoGC = verifrt.Bool()
 	m := &refModel{stored: make([]bool, K), tags: map[string]int{}}
 	// everything is pushed children-first, then a tagging history, then the operations under test
+	// (param partial: one node may never have been pushed — a referrer whose subject is missing, a
+	// manifest whose layer is missing: states every history of pushes can reach)
+	skip := -1
+	if verifrt.Param("partial", 0) != 0 {
+		skip = verifrt.Choice(K+1) - 1
+		if skip >= 0 {
+			verifrt.Event(sprintf("node%d never pushed", skip))
+		}
+	}
 	for i := range nodes {
+		if i == skip || (skip >= 0 && sameBlob(nodes[i].desc, nodes[skip].desc)) {
+			continue
+		}
 		if !storedIdx(nodes, m, i) {
 			must(s.Push(ctx, nodes[i].desc, newBytesReader(nodes[i].bytes)))
 		}
